@@ -110,7 +110,7 @@ func CheckBoringPadding(ch *wire.ClientHello) error {
 func init() {
 	Register("C02", &Info{
 		Run:   runC02,
-		Quick: 12000, Thor: 600000,
+		Quick: 12000, Thor: 2000000,
 		Rule: "a world = one fingerprint (every predefined parrot by stratum, randomized seeds, HelloGolang, generated custom specs, fingerprinted copies of a parrot's own wire hello under each Fingerprinter flag combination) x Config shape (ServerName: empty/IPv4/IPv6/bracketed/trailing dots/1-253 chars/over-long; NextProtos; OmitEmptyPsk; optional cached TLS1.2/1.3 session from a first connection (also with a cookie-bearing HelloRetryRequest that selects a suite of the other hash, so the offered PSK becomes unusable); Config.Rand failing at its n-th read) against a real server; every ClientHello reassembled from the wire tap (first hello, hello after HelloRetryRequest, resumption hello) is parsed by the strict independent grammar; non-trivial = a ClientHello reached the wire or the library returned an error; distinct = (fingerprint, config shape, hello length)",
 		Assumptions: []string{"the grammar in sim/wire is my reading of RFC 8446/6066/7301/7685/8879/9001, the ECH and ALPS drafts; it was validated against every parrot and by mutation tests, and cross-checked by the standard-library server's parser",
 			"no schedule is involved in this property: the simulator contributes ownership of both random sources (replayable draws) and the wire tap of real connections (DESIGN 0)"},
